@@ -637,8 +637,68 @@ pub fn one_c13(prop: &str, c: &Case, rep: &mut Report) {
             (vf, v)
         }) {
             Err(p) => rep.violations.push(panic_violation(prop, c, &p)),
-            Ok((_vf, vw)) => {
+            Ok((vf, vw)) => {
                 wf_checked = true;
+                // the integrals evaluated on the with-faces integrator itself (the fan decomposition is another one, so the
+                // measures agree up to rounding only, but the LISTS - which faces, which neighbour, which shift, in which
+                // order - are those of the plain integrator, for the non-symmetric and for the symmetric variant, masked or not)
+                match guarded(|| (vf.compute_face_integrals::<AreaCentroidIntegral>(), vf.compute_face_integrals_sym::<AreaCentroidIntegral>(), vf.compute_cell_integrals::<VolumeCentroidIntegral>())) {
+                    Err(p) => rep.violations.push(panic_violation(prop, c, &p)),
+                    Ok((wnonsym, wsym, wcells)) => {
+                        let s = scales(c);
+                        for (name, wl, pl) in [("compute_face_integrals", &wnonsym, &nonsym), ("compute_face_integrals_sym", &wsym, &sym)] {
+                            rep.count("with_faces_integral_lists_compared", 1);
+                            // faces without area may be present in one decomposition and absent in the other (a face
+                            // polygon with fewer than three vertices has no fan triangle), and a face whose area is near the
+                            // threshold must not flip the comparison: every face that has a clearly non-negligible area
+                            // (10 x the property's threshold) in ONE list must be in the other one with the same area up
+                            // to rounding, and the faces common to both lists come in the same order. Boundary faces of a
+                            // cell whose generator lies exactly on a wall are skipped (finding F9: the with-faces
+                            // decomposition gives such a face the area 0; reported by C14 / C15 as a known finding).
+                            type Fk = (usize, Option<usize>, Option<[u64; 3]>);
+                            let key = |f: &meshless_voronoi::integrals::FaceIntegrator<AreaCentroidIntegral>| -> Fk { (f.left(), f.right(), f.shift().map(|v| v.to_array().map(f64::to_bits))) };
+                            let (an, wn) = c.norm_box();
+                            let on_wall = |i: usize| (0..c.dim).any(|ax| c.pts[i][ax] == an[ax] || c.pts[i][ax] == an[ax] + wn[ax]);
+                            let skip = |k: &Fk| k.1.is_none() && !c.periodic && on_wall(k.0);
+                            let mx: std::collections::HashMap<Fk, f64> = wl.iter().map(|f| (key(f), f.integral().area)).collect();
+                            let my: std::collections::HashMap<Fk, f64> = pl.iter().map(|f| (key(f), f.integral().area)).collect();
+                            let mut bad = None;
+                            for (m1, m2, who) in [(&mx, &my, "with faces"), (&my, &mx, "without faces")] {
+                                for (k, &a1) in m1.iter() {
+                                    if skip(k) {
+                                        rep.count("with_faces_wall_faces_of_generators_on_walls_skipped", 1);
+                                        continue;
+                                    }
+                                    if a1 > 10. * s.athr {
+                                        let a2 = m2.get(k).copied().unwrap_or(0.);
+                                        // accuracy of a face area of this cell by the tolerance model of DESIGN 5.3 (both
+                                        // decompositions start from the same vertices); ill-conditioned cells: no metric verdict
+                                        let Some(t) = vi.get_cell_at(k.0).map(|cell| cell_tol(cell, &s)) else { continue };
+                                        if t.ill {
+                                            rep.count("with_faces_faces_of_ill_conditioned_cells_skipped", 1);
+                                            continue;
+                                        }
+                                        let tol = 8. * t.tol_a + 5. * s.athr;
+                                        if !((a1 - a2).abs() <= tol) {
+                                            bad = Some(format!("face {}->{:?} (shift {}) has area {a1:e} in the list evaluated {who} and {a2:e} in the other one", k.0, k.1, k.2.is_some()));
+                                        }
+                                    }
+                                }
+                            }
+                            let common_x: Vec<Fk> = wl.iter().map(key).filter(|k| my.contains_key(k)).collect();
+                            let common_y: Vec<Fk> = pl.iter().map(key).filter(|k| mx.contains_key(k)).collect();
+                            if bad.is_none() && common_x != common_y {
+                                bad = Some("the faces common to both lists come in a different order".to_string());
+                            }
+                            if let Some(what) = bad {
+                                rep.violations.push(Violation::new(prop, "c13.with_faces_integral_list", format!("{name} on the with-faces integrator ({} entries) vs on the plain integrator ({} entries): {what}", wl.len(), pl.len()), Some(c), json!({"which": name})));
+                            }
+                        }
+                        if wcells.len() != cellint.len() {
+                            rep.violations.push(Violation::new(prop, "c13.with_faces_cell_integral_count", format!("compute_cell_integrals returns {} entries with faces, {} without", wcells.len(), cellint.len()), Some(c), json!({})));
+                        }
+                    }
+                }
                 if vw.faces().len() != via.faces().len() || vw.cell_face_connections() != via.cell_face_connections() {
                     // a face without any vertex is dropped by both decompositions alike; a different count is a difference
                     rep.violations.push(Violation::new(prop, "c13.with_faces_structure", format!("with_faces route stores {} faces / a different connectivity, the plain integrator route {}", vw.faces().len(), via.faces().len()), Some(c), json!({})));
